@@ -778,6 +778,29 @@ def run(ctx):
                                                     for e in (events[:1] + [e for e in events if e["op"] == "Dist"][:1])]})
     judge_trace(ctx, judge, events, v["verdict"])
     judge.finish()
+    # ---- single statistics on many longer permutations (cheap definitions, one per event) ------------------
+    one = []
+    calls = {"holeyness": lambda P: P.holeyness(), "bounces": lambda P: P.count_bounces(), "max_drop_size": lambda P: P.max_drop_size(),
+             "column_sum_primes": lambda P: P.count_column_sum_primes(), "order": lambda P: P.order(), "depth": lambda P: P.depth(),
+             "major_index": lambda P: P.major_index(), "inversions": lambda P: P.count_inversions(),
+             "longest_decreasing_run": lambda P: P.length_of_longestrun_descending()}
+    rnd_one = util.rng(ctx, 1111)
+    for _ in range(260 if ctx.tier == "quick" else 1500):
+        q = util.rand_perm(rnd_one, rnd_one.choice([7, 7, 7, 8, 8, 9]))
+        for stat in (("holeyness",) if len(q) <= 8 else ()) + tuple(rnd_one.sample(sorted(set(calls) - {"holeyness"}), 2)):
+            st_, got_ = util.call(calls[stat], Perm(q))
+            if st_ == "ok" and isinstance(got_, int):
+                one.append({"op": "One", "stat": stat, "p": list(q), "res": got_})
+    chunks_ = [one[k::6] for k in range(6)]
+    import concurrent.futures as _cf
+    with _cf.ThreadPoolExecutor(max_workers=6) as ex_:
+        vs_ = list(ex_.map(lambda ch: util.validate_trace(ctx, "Trace_C11b", ch, ntraces=len(ch), timeout=3000), chunks_))
+    for ch, v_ in zip(chunks_, vs_):
+        for b_ in v_["verdict"]:
+            ev_ = ch[b_["i"] - 1]
+            ctx.violation({"kind": "single-statistic", "event": ev_}, "StatisticIsItsDefinition:" + b_["clause"], "value by definition (lib Stats)", ev_["res"])
+    ctx.case(n=len(one))
+    ctx.note("single_statistic_events_lengths_7_to_9", len(one))
     ctx.rule = ("TLC enumerates every permutation of the universe with the value of every statistic / listing BY DEFINITION "
                 "(Stats.tla) and every datum (class level, pair of classes, bijection) with the defining identities of the tools; "
                 "each record is replayed through every method / tool of the real code (listings as sorted lists, counts against "
